@@ -893,4 +893,157 @@ def C14(tier, seed, st):
     return res
 
 
-CHECKS = {"C13": C13, "C14": C14, "C01": C01, "C02": C02, "C03": C03, "C05": C05, "C06": C06, "C09": C09, "C10": C10, "C15": C15, "C16": C16}
+# ---------------------------------------------------------------- C08
+def C08(tier, seed, st):
+    res = Result("C08")
+    rng = random.Random(seed)
+    # (1) the list observable through the generator: 187 crafted 12-word entropies per language reveal the
+    #     word emitted for every index 0..2047 (positions 0..10 of entropy k carry indices 11k..11k+10)
+    lines, want = [], []
+    for lang in LANGS:
+        for k in range(187):
+            pre = [(11 * k + p_) % 2048 for p_ in range(11)]
+            lines.append("E %s %s" % (lang, hx(gens.entropy_from_prefix(pre, 12, rng.randrange(128)))))
+            want.append(pre)
+    impl = common.run_impl(lines)
+    model = common.run_model(lines, "model")
+    observed = {lang: {} for lang in LANGS}
+    for ln, pre, i, m in zip(lines, want, impl, model):
+        res.evaluations += 1
+        lang = ln.split()[1]
+        i0 = strip_impl_E(i)
+        if not i0.startswith("ok "):
+            res.violation(stream="E", case=ln, impl=i, model=m, spec="a mnemonic", why="generator failed")
+            continue
+        ws = unhx(i0[3:]).split(gens.sep(lang))
+        for p_, idx in enumerate(pre):
+            if p_ < len(ws):
+                observed[lang].setdefault(idx, set()).add(ws[p_])
+        if i0 != m:
+            res.corr_break(stream="E", case=ln, impl=i, model=m, why="model and implementation differ")
+    for lang in LANGS:
+        t = gens.table(lang)
+        res.count("index/" + lang, len(observed[lang]))
+        for idx in range(2048):
+            got = observed[lang].get(idx, set())
+            res.nontrivial.add("%s/%d" % (lang, idx))
+            if got != {t[idx]}:
+                k = idx // 11
+                res.violation(stream="E", case=lines[LANGS.index(lang) * 187 + min(k, 186)], impl=sorted(hx(g) for g in got), model="",
+                              spec=hx(t[idx]), why="the word emitted for index %d of %s is not the canonical word" % (idx, lang))
+                break
+    # (2) validation maps each word back to the same index: every word of every list inside a valid sentence
+    items = word_items(rng, "thorough")
+    def judge(tag, expect, icls, iv, sacc, scls, xs, lang):
+        if not (scls == "nil" and sacc == "accept"):
+            return "generator self-check: constructed sentence is not valid by the specification (%s)" % scls
+        return None if icls == "nil" else "a valid sentence containing this word is rejected (%s): the validator does not map the word to its index" % icls
+    run_C(res, items, judge)
+    # (3) nothing else maps to an index: a word of another list / a respelled word in place of a word is unknown
+    items = []
+    for lang in LANGS:
+        for _ in range(20):
+            n = rng.choice(WORD_COUNTS)
+            idx = gens.indices_of_entropy(rng.randbytes(n // 3 * 4))
+            p_ = rng.randrange(n)
+            ws = [gens.table(lang)[i] for i in idx]
+            other = rng.choice([l for l in LANGS if l != lang])
+            cand = gens.table(other)[rng.randrange(2048)]
+            if cand in gens.table(lang):
+                continue
+            ws[p_] = cand
+            items.append(("foreign-word", lang, b" ".join(ws), None))
+    run_C(res, items, lambda *a: judge_common(*a))
+    res.exhaustive = True
+    res.notes.append("finite domain 10 x 2048 enumerated completely: every index observed through NewMnemonicByEntropy and every word validated inside a sentence")
+    return res
+
+
+# ---------------------------------------------------------------- C07
+def C07(tier, seed, st):
+    res = Result("C07")
+    rng = random.Random(seed)
+    q = tier == "quick"
+    import math
+    # (1) identity of the pre-swap source, in a fresh process; also under every environment variable the
+    #     package reads (none at the pinned commit) and a few common debugging knobs
+    envs = [{}]
+    for name in common.env_reads():
+        if name and not name.startswith("<"):
+            for val in ("1", "42", "true"):
+                envs.append({name: val})
+    for e in envs:
+        r = common.run_impl_env(["W"], e)[0]
+        res.evaluations += 1
+        res.nontrivial.add("W %s" % sorted(e.items()))
+        res.count("W")
+        if r != "default-is-crypto-rand=true restored=true":
+            res.violation(stream="W", case="W", env=e, impl=r, model="", spec="default-is-crypto-rand=true restored=true",
+                          why="the randomness source consulted before any swap is not crypto/rand.Reader itself")
+    # (2) output is a function of the source's bytes only: scripted sources with every value of the first and of the
+    #     last byte, constant buffers, and fragmentation; expected = the specification's encoding of those bytes
+    lines, datas = [], []
+    for n in WORD_COUNTS:
+        need = n + n // 3
+        lang = rng.choice(LANGS)
+        pats = [bytes([b]) + rng.randbytes(need - 1) for b in range(256)]
+        pats += [rng.randbytes(need - 1) + bytes([b]) for b in (range(256) if not q else range(0, 256, 8))]
+        pats += [bytes([b]) * need for b in (0, 1, 0x7f, 0x80, 0xff)]
+        pats += [bytes(k) + rng.randbytes(need - k) for k in range(1, 9)]
+        for d in pats:
+            parts = gens.fragment(rng, d, rng.randrange(1, 4))
+            lines.append("N %d %s %s" % (n, lang, gens.script_str([(p_, None) for p_ in parts])))
+            datas.append((lang, d))
+    impl = common.run_impl(lines)
+    model = common.run_model(lines, "model")
+    spec = common.run_model(["E %s %s" % (lang, hx(d)) for lang, d in datas], "spec")
+    for ln, i, m, sp in zip(lines, impl, model, spec):
+        res.evaluations += 1
+        res.count("N/scripted")
+        res.nontrivial.add(ln)
+        head = i.split(" used=")[0]
+        if head != sp:
+            res.violation(stream="N", case=ln, impl=i, model=m, spec=sp, why="NewMnemonic output is not the encoding of exactly the bytes its source delivered")
+        elif i.rsplit(" reads=", 1)[0] != m:
+            res.corr_break(stream="N", case=ln, impl=i, model=m, why="model and implementation differ")
+    # (3) default-source output: pairwise distinct entropies, byte frequencies within 8 sigma (false alarm < 2^-40)
+    per = 256 if q else 4096
+    gl = ["G %d %s %d" % (n, rng.choice(LANGS), per) for n in WORD_COUNTS]
+    gi = common.run_impl(gl, shards=5)
+    dl = []
+    for ln, r in zip(gl, gi):
+        lang = ln.split()[2]
+        for mn in r.split(","):
+            dl.append("D %s %s" % (lang, mn))
+    dec = common.run_model(dl, "spec")
+    ents = [d[4:] for d in dec if d.startswith("ent ")]
+    res.evaluations += len(dl)
+    res.count("G/default-source", len(dl))
+    if len(ents) != len(dl):
+        bad = [(a, b) for a, b in zip(dl, dec) if not b.startswith("ent ")][0]
+        res.violation(stream="G", case=bad[0], impl=bad[1], model="", spec="a decodable mnemonic", why="default-source NewMnemonic output does not decode")
+    elif len(set(ents)) != len(ents):
+        res.violation(stream="G", case=gl[0], impl="%d distinct of %d" % (len(set(ents)), len(ents)), model="", spec="pairwise distinct",
+                      why="the default source repeated an entropy: not a CSPRNG")
+    else:
+        allb = b"".join(bytes.fromhex(e) for e in ents)
+        N = len(allb)
+        exp = N / 256.0
+        sigma = math.sqrt(N * (1 / 256.0) * (255 / 256.0))
+        cnt = [0] * 256
+        for b in allb:
+            cnt[b] += 1
+        worst = max(range(256), key=lambda b: abs(cnt[b] - exp))
+        dev = abs(cnt[worst] - exp) / sigma
+        res.notes.append("default source: %d entropies, %d bytes, worst byte-frequency deviation %.2f sigma (byte 0x%02x)" % (len(ents), N, dev, worst))
+        res.nontrivial.add("G-stat")
+        if dev > 8:
+            res.violation(stream="G", case=gl[0], impl="byte 0x%02x occurs %d times in %d bytes (%.1f sigma)" % (worst, cnt[worst], N, dev), model="",
+                          spec="uniform bytes", why="default-source entropy bytes are not uniformly distributed")
+    res.sample({"case": "W", "impl": "default-is-crypto-rand=true restored=true"})
+    res.sample({"case": lines[0], "impl": impl[0]})
+    res.streams.update({"W": len(envs), "N": len(lines), "G": len(dl)})
+    return res
+
+
+CHECKS = {"C07": C07, "C08": C08, "C13": C13, "C14": C14, "C01": C01, "C02": C02, "C03": C03, "C05": C05, "C06": C06, "C09": C09, "C10": C10, "C15": C15, "C16": C16}
